@@ -267,7 +267,24 @@ class Interp:
             return z3.If(v, 1, 0)
         return v
 
-    def binop(self, op, a, b):
+    _DUNDER = {ast.Add: 'add', ast.Sub: 'sub', ast.Mult: 'mul', ast.Div: 'truediv', ast.FloorDiv: 'floordiv',
+               ast.Mod: 'mod', ast.Pow: 'pow'}
+
+    def binop(self, op, a, b, inplace=False):
+        if isinstance(a, SObj) or isinstance(b, SObj):
+            nm = self._DUNDER.get(type(op))
+            if nm is None:
+                raise Unsupported('operator on object')
+            if isinstance(a, SObj):
+                for cand in ([f'__i{nm}__'] if inplace else []) + [f'__{nm}__']:
+                    m = self.find_method_obj(a, cand)
+                    if m is not None:
+                        return self.call_function(m, [b], {})
+            if isinstance(b, SObj):
+                m = self.find_method_obj(b, f'__r{nm}__')
+                if m is not None:
+                    return self.call_function(m, [a], {})
+            raise PyRaise('TypeError')
         # sequences
         if isinstance(op, ast.Add):
             if isinstance(a, str) and isinstance(b, str):
@@ -379,6 +396,8 @@ class Interp:
         # non-integer / symbolic exponent: an uninterpreted positive real (A-REAL, value irrelevant)
         self.trusted.add('pow(x, non-integer) modelled as an unspecified real; result > 0 when the base is > 0')
         r = fresh_real('pow')
+        if isinstance(a, (int, Fraction)) and isinstance(b, (int, Fraction)) and a > 1 and 0 < b < 1:
+            self.assume(z3.And(r > 1, r < to_z3(Fraction(a), z3.RealSort())))   # 1 < a**b < a
         base_pos = (a > 0) if not is_z3(a) else (to_z3(a, z3.RealSort()) > 0)
         if base_pos is True:
             self.assume(r > 0)
@@ -1509,7 +1528,7 @@ class Interp:
                     from . import builtins_model
                     builtins_model.list_extend(self, cur, self.eval(s.value))
                     return
-            new = self.binop(s.op, cur, self.eval(s.value))
+            new = self.binop(s.op, cur, self.eval(s.value), inplace=True)
             if isinstance(cur, SArr) and cur.np:
                 # numpy in-place: same identity is kept
                 if getattr(cur, 'view_of', None) is not None:
@@ -1682,6 +1701,8 @@ class Interp:
         it = self.eval(s.iter)
         inv = self.invariants.get(key)
         seq = None
+        if inv is not None and isinstance(it, range):
+            inv = None     # concrete trip count: unroll exactly, no cut needed
         if inv is None:
             try:
                 seq = self.iter_concrete(it)
